@@ -56,4 +56,7 @@ inline HistCfg add_emcy_hist(World &w, int depth) {
   return h;
 }
 
+// case functions shared between properties
+void c14_case(Ctx &c);
+
 }  // namespace vf
